@@ -434,15 +434,19 @@ def install():
     orig_methods = protocol.get_methods
 
     def p_get_methods(attrs, obj):
+        global IN_INSPECT
         r = active()
         if r is None or caller_name() != "_handle_inspect":
             return orig_methods(attrs, obj)
         r.touch("inspect", obj)
+        IN_INSPECT += 1
         try:
             res = tuple(orig_methods(attrs, obj))
         except BaseException as ex:
             r.failed(ex)
             raise
+        finally:
+            IN_INSPECT -= 1
         r.done(res)
         return res
 
@@ -702,6 +706,7 @@ def install():
             pass
         r.note_remote_names(raw_args[1] if type(raw_args) is tuple and len(raw_args) == 2 else None, 0)
         r.reqs.append(req)
+        r.event("request %s" % r.val(seq))
         try:
             return orig_dispatch_request(self, seq, raw_args)
         except BaseException as ex:
@@ -794,9 +799,13 @@ def install():
     def a_wait(self):
         try:
             return orig_wait(self)
-        except async_.AsyncResultTimeout:
+        except async_.AsyncResultTimeout as ex:
             r = active(self._conn)
-            if r is not None:
+            depth, tb = 0, ex.__traceback__
+            while tb is not None:
+                depth, tb = depth + 1, tb.tb_next
+            # raised by wait() itself (this wait's deadline passed), not an exception that came out of a nested serve()
+            if r is not None and depth <= 2:
                 for k, v in list(self._conn._request_callbacks.items()):
                     if v is self:
                         r.event("expired %d" % k)
@@ -854,6 +863,7 @@ def install():
 
 
 NOTHING = object()
+IN_INSPECT = 0      # HANDLE_INSPECT reads every method of a held object's class hierarchy, by design
 PICKLE_LOG = []
 IMPORT_LOG = []
 
